@@ -37,7 +37,9 @@ def main(argv=None):
         if args.replay:
             with open(args.replay) as f:
                 rp = json.load(f)
-            lib.MODE = 'int' if str(rp.get('family') or '').endswith('#int') else 'float'
+            lib.MODE = 'int' if '#int' in str(rp.get('family') or '') else 'float'
+            fam_ = str(rp.get('family') or '')
+            lib.FORM = 'B' if '#formB' in fam_ else ('C' if '#formC' in fam_ else 'A')
             try:
                 viols = mod.replay(rp['family'], rp['scene'])
             except lib.ConstructionFailed as cf:
